@@ -13,13 +13,15 @@ func (e *envState) rebuildDurable(p *pathState, upto int) {
 	for _, d := range e.disks {
 		d.ents = nil
 		d.open = false
+		d.version = 0
 	}
 	e.files = map[string]value{}
 	e.dirs = map[string]bool{}
 	for _, x := range eff {
 		switch x.kind {
 		case "kv":
-			x.disk.ents = p.applyWrites(x.disk.ents, x.writes)
+			x.disk.version++
+			x.disk.ents = p.applyWritesV(x.disk.ents, x.writes, x.disk.version)
 		case "fs":
 			switch {
 			case x.remove:
